@@ -97,7 +97,7 @@ def elimChild {σ : Type} (tol : α) (O : Oracles σ α) (n : Nat) (path : List 
     if d.1.isInfeasible then (.node ch.idx ⟨ch.val.aff, d.1⟩ ch.kids, d.2, true, true)
     else
       let sub := elimNode tol O n false (path ++ [halfspace paff l]) d.1 ch d.2
-      (sub.1, sub.2, false, d.1.isFeasible)
+      (sub.1, sub.2, false, true)
   | .feasible =>
     let sub := elimNode tol O n false (path ++ [halfspace paff l]) .feasible ch s
     (sub.1, sub.2, false, false)
@@ -151,20 +151,20 @@ end
 
 theorem forwardLabel_spec (ks : PKids α) (l : Nat) (h : forwardLabel? ks = some l) :
     ∃ a b : PT α, ks = .cons (some a) (.cons (some b) .nil) ∧
-      ((l = 0 ∧ a.val.state.isFeasible = true ∧ b.val.state.isInfeasible = true) ∨
-       (l = 1 ∧ a.val.state.isInfeasible = true ∧ b.val.state.isFeasible = true)) := by
+      ((l = 0 ∧ a.val.state.isInfeasible = false ∧ b.val.state.isInfeasible = true) ∨
+       (l = 1 ∧ a.val.state.isInfeasible = true ∧ b.val.state.isInfeasible = false)) := by
   unfold forwardLabel? at h
   split at h
   · rename_i a b
     refine ⟨a, b, rfl, ?_⟩
-    by_cases h1 : (a.val.state.isFeasible && b.val.state.isInfeasible) = true
+    by_cases h1 : (!a.val.state.isInfeasible && b.val.state.isInfeasible) = true
     · simp only [h1, if_true, Option.some.injEq] at h
-      simp only [Bool.and_eq_true] at h1
+      simp only [Bool.and_eq_true, Bool.not_eq_true'] at h1
       exact Or.inl ⟨h.symm, h1.1, h1.2⟩
     · simp only [h1, Bool.false_eq_true, if_false] at h
-      by_cases h2 : (a.val.state.isInfeasible && b.val.state.isFeasible) = true
+      by_cases h2 : (a.val.state.isInfeasible && !b.val.state.isInfeasible) = true
       · simp only [h2, if_true, Option.some.injEq] at h
-        simp only [Bool.and_eq_true] at h2
+        simp only [Bool.and_eq_true, Bool.not_eq_true'] at h2
         exact Or.inr ⟨h.symm, h2.1, h2.2⟩
       · simp [h2] at h
   · simp at h
@@ -206,8 +206,8 @@ theorem elimNode_state {σ : Type} (tol : α) (O : Oracles σ α) (n : Nat) (isR
           obtain ⟨a, b, hks, hcase⟩ := forwardLabel_spec _ l hl
           rw [hks] at hch
           rcases hcase with ⟨rfl, ha, _⟩ | ⟨rfl, _, hb⟩
-          · simp [IKids.get?] at hch; subst hch; exact feasible_not_infeasible _ ha
-          · simp [IKids.get?] at hch; subst hch; exact feasible_not_infeasible _ hb
+          · simp [IKids.get?] at hch; subst hch; exact ha
+          · simp [IKids.get?] at hch; subst hch; exact hb
 
 end AV
 
